@@ -162,6 +162,8 @@ def judge_c15(plan, result):
     applies_of_obj = {}
     arch_listing = {}
     snap_of_ev = {}
+    aborted_scan_cfgs = set()
+    cancelled_on_ev = set()
     for ev in result["log"]:
         op, res = ev["op"], ev["res"]
         if op["op"] == "str" and op.get("obj") in archs and res.get("r") == "ok":
@@ -179,7 +181,16 @@ def judge_c15(plan, result):
                 viol.append({"inv": "I2", "sig": "C15/I2/modules-property-changed", "step": ev["i"],
                              "detail": {"ev": op["ev"], "now": res["modules"], "at_creation": want}})
             continue
+        if op["op"] == "drop":
+            _bump(pr, "object_dropped")
+            continue
         if op["op"] == "scan":
+            if res.get("r") == "ABORTED":
+                _bump(pr, "scan_cancelled")
+                aborted_scan_cfgs.add(op["cfg"])
+                continue
+            if op["cfg"] in aborted_scan_cfgs:
+                _bump(pr, "scan_after_cancelled_scan_of_same_request")
             if res.get("r") == "ok":
                 snap_of_ev[op["ev"]] = res["snap"]
             st["scans"] += 1
@@ -208,11 +219,25 @@ def judge_c15(plan, result):
         got = _cls(res)
         if res.get("r") == "skip" and res.get("why") == "no-evaluable":
             continue
-        st["applies"] += 1
-        st["verdicts"][got] += 1
+        cancelled = res.get("r") == "ABORTED"
+        if cancelled:
+            _bump(pr, "evaluation_cancelled")
+        elif res.get("tainted"):
+            _bump(pr, "evaluation_on_cancelled_object_not_judged")
+        else:
+            st["applies"] += 1
+            st["verdicts"][got] += 1
+            if op["ev"] in cancelled_on_ev:
+                _bump(pr, "evaluation_after_cancelled_evaluation_on_same_evaluable")
         if res.get("r") != "skip" and res.get("ev_before") != res.get("ev_after"):
-            viol.append({"inv": "I2", "sig": f"C15/I2/{_spec_shape(spec)}", "step": ev["i"],
+            tag = "/cancelled" if cancelled else ""
+            viol.append({"inv": "I2", "sig": f"C15/I2/{_spec_shape(spec)}{tag}", "step": ev["i"],
                          "detail": {"phase": "session", "op": op, "outcome": res}})
+        if cancelled:
+            cancelled_on_ev.add(op["ev"])
+        if cancelled or res.get("tainted"):
+            # nothing is specified about a rule object whose evaluation was cancelled
+            continue
         ref = iso_out.get(key)
         if ref is not None:
             want = _cls(ref)
